@@ -79,7 +79,7 @@ class TWebSocket:
             c.first_read_clk = self.sim.tick()
             c.first_read_t = self.sim.now
         c.reads += 1
-        if self.eof:
+        if self.eof or c.server_closed:
             return self._closed()
         try:
             item = c.q.get(timeout=self._timeout)
@@ -116,9 +116,9 @@ class TWebSocket:
         if not c.server_closed:
             c.server_closed = True
             c.close_clk = self.sim.tick()
-            if c.polite and not c.vanished and not c.client_closed:
-                c.client_closed = True
-                c.q.put(CLOSED)
+            # a local close ends the read side whatever the peer does
+            # (simple-websocket / eventlet wake a blocked receive())
+            c.q.put(CLOSED)
 
 
 class Input:
